@@ -147,6 +147,25 @@ def run(tier):
     good = c03.trace_validation(recs, "quick")
     bad = c03.trace_validation(recs, "quick", corrupt=drop_split)
     expect("C03 hook trace with a split dropped", bad.get("traces_not_a_behaviour", 0) >= 1, good.get("traces_not_a_behaviour", 1) == 0 and good.get("traces", 0) >= 1, results)
+    # C02 mechanism: a recorded trace of dfa_from_regex with one target set altered is not a behaviour of Subset.tla; a wrong state
+    # number in the recorded final automaton is not what Subset.tla's Final computes
+    from props import c02
+
+    def alter_edge(cases):
+        for c in cases:
+            k = [e for e in c["events"] if e["ev"] == "sc_edge" and len(e["set"]) >= 1]
+            if k:
+                k[-1]["set"] = k[-1]["set"][:-1] + [k[-1]["set"][-1] + 1]
+
+    def renumber_final(cases):
+        for c in cases:
+            if c["hasmin"] and c["mintr"]:
+                c["mintr"][-1][2] = c["mintr"][-1][2] + 1
+    good = c02.subset_mechanism(recs, "quick")
+    bad = c02.subset_mechanism(recs, "quick", corrupt=alter_edge)
+    bad2 = c02.subset_mechanism(recs, "quick", corrupt=renumber_final)
+    expect("C02 hook trace with a target set altered / final automaton renumbered", bad.get("traces_not_a_behaviour", 0) >= 1 and bad2.get("final_automaton_differs", 0) >= 1,
+           good.get("traces_not_a_behaviour", 1) == 0 and good.get("final_automaton_differs", 1) == 0 and good.get("traces", 0) >= 1, results)
     failed = [r for r in results if not r[1]]
     print("selftest: %d of %d corruptions detected with their untouched twins accepted" % (len(results) - len(failed), len(results)))
     return 2 if failed else 0
